@@ -67,6 +67,7 @@ def tasks(tier):
     ts += [("memory-two-domains", 12), ("memory-two-domains", 13), ("late-bound",)]
     ts += [("rename-merge", c) for c in ("two-to-one", "onto-existing", "onto-existing-reversed")]
     ts += [("dict-inserter", c) for c in ("reset", "reset-b-first", "enable", "enable-b-first")]
+    ts += [("rename-swap", c) for c in ("swap", "chain")]
     return ts
 
 
@@ -494,6 +495,59 @@ def check_dict_inserter(kind):
     return runner.from_exploration(name, Exploration(name, body).run())
 
 
+def check_rename_swap(case):
+    """DomainRenamer maps whose targets are also sources (a swap {a: b, b: a}, a chain {a: b, b: c}): every statement, late-bound
+    clock AND memory port moves exactly once -- what was in `a` is clocked by the new `b` only, what was in `b` by the new
+    target of `b` only."""
+    from amaranth.hdl import Signal, Module, ClockDomain, DomainRenamer
+    from amaranth.lib.memory import Memory
+    name = f"rename-swap({case})"
+    x, y, d = Signal(3, name="x", init=1), Signal(3, name="y", init=2), Signal(3, name="d")
+    mem = Memory(shape=3, depth=2, init=[4, 5])
+    wp = mem.write_port(domain="a")
+    rp = mem.read_port(domain="b")
+    inner = Module()
+    inner.submodules.mem = mem
+    inner.d.a += x.eq(x + d)
+    inner.d.b += y.eq(y ^ d)
+    dmap = {"swap": {"a": "b", "b": "a"}, "chain": {"a": "b", "b": "c"}}[case]
+    top = Module()
+    cds = {n: ClockDomain(n) for n in ("a", "b", "c")}
+    for cd in cds.values():
+        top.domains += cd
+    top.submodules.inner = DomainRenamer(dmap)(inner)
+    dsg = Design(top)
+    dsg.register(wp.addr, wp.data, wp.en, rp.addr, rp.en)
+    new_of_a, new_of_b = dmap["a"], dmap["b"]
+
+    def body(path):
+        dsg.fresh(path, "m")
+        for cd in cds.values():
+            dsg.set(cd.clk, 0)
+            dsg.set(cd.rst, 0)
+        dsg.apply([], path, f"{name}::pre")
+        for dom in ("a", "b", "c"):
+            old = {"x": dsg.val(x), "y": dsg.val(y), "rd": dsg.val(rp.data)}
+            rows = list(dsg.mem(0).data)
+            dv = dsg.val(d)
+            wa, wd, we, ra, re_ = (dsg.val(s_) for s_ in (wp.addr, wp.data, wp.en, rp.addr, rp.en))
+            dsg.apply([(cds[dom].clk, 1)], path, f"{name}::{dom}-edge")
+            exp_x = ite(dom == new_of_a, (old["x"] + dv) & 7, old["x"]) if dom == new_of_a else old["x"]
+            exp_y = (old["y"] ^ dv) & 7 if dom == new_of_b else old["y"]
+            path.prove(f"{name}::edge-of-{dom}::x", to_sint(dsg.val(x)) == to_sint(exp_x))
+            path.prove(f"{name}::edge-of-{dom}::y", to_sint(dsg.val(y)) == to_sint(exp_y))
+            for i in range(2):
+                want = ite(And(we != 0, wa == i), wd, rows[i]) if dom == new_of_a else rows[i]
+                path.prove(f"{name}::edge-of-{dom}::row{i}", to_sint(dsg.mem(0).data[i]) == to_sint(want))
+            if dom == new_of_b:
+                want_rd = ite(re_ != 0, ite(ra == 0, rows[0], rows[1]), old["rd"])
+            else:
+                want_rd = old["rd"]
+            path.prove(f"{name}::edge-of-{dom}::read-register", to_sint(dsg.val(rp.data)) == to_sint(want_rd))
+            dsg.apply([(cds[dom].clk, 0)], path, f"{name}::{dom}-fall")
+    return runner.from_exploration(name, Exploration(name, body).run())
+
+
 def check_late_bound():
     """ClockSignal(d) / ResetSignal(d) written in a fragment mean THAT fragment's domain d -- also when a subfragment defines a
     domain of the same name of its own (which shadows the outer one below it only), wherever the submodule is added
@@ -573,6 +627,8 @@ def run_task(task):
         return check_rename_merge(task[1])
     if k == "dict-inserter":
         return check_dict_inserter(task[1])
+    if k == "rename-swap":
+        return check_rename_swap(task[1])
     if k == "memory-two-domains":
         from . import c11
         cfg = c11.configs("thorough")[task[1]]
